@@ -15,7 +15,8 @@ From Coq Require Import List NArith Bool.
 Import ListNotations.
 Require Import Verif.Lib.Wire Verif.Lib.Text Verif.Lib.PathNorm Verif.Lib.Utf8 Verif.Lib.Percent Verif.Lib.C07Types
                Verif.Gen.Facts_C02 Verif.Gen.Facts_C07 Verif.Model.C02 Verif.Model.C07
-               Verif.Proofs.C07_rt Verif.Proofs.C07.
+               Verif.Proofs.C02_memo Verif.Proofs.C07_rt Verif.Proofs.C07 Verif.Proofs.C07_hist Verif.Proofs.C07_c17.
+Require Verif.Model.C17.
 
 (* the regenerated facts are the ones the proofs were written against (in
    particular: ResourceURL compares decoded segments) *)
@@ -96,13 +97,16 @@ Theorem C07_find_missing : forall root a names_a rel x,
 Proof. exact find_missing. Qed.
 Print Assumptions C07_find_missing.
 
-(* resource_url_shape: application URL + (virtual) path with trailing slash + quoted elements;
+(* resource_url_shape: application URL (host part ++ SCRIPT_NAME as UTF-8, percent-quoted with the path safe
+   set -- webob's quoting is proved to coincide) + (virtual) path with trailing slash + quoted elements;
    spec_virtual_path omits the virtual-root prefix exactly when the resource is inside *)
-Theorem C07_resource_url_shape : forall root r names els vroot vt sn d app,
+Theorem C07_resource_url_shape : forall root r names els vroot vt sn d host,
   good_resource root r = Some names -> header_segments vroot = Some vt ->
   forallb (forallb valid_scalar) els = true -> decode_path_info sn = Ok d ->
-  resource_url UrlTupleCompare root r els vroot sn (Some app)
-    = Val (app ++ spec_virtual_path root r names vt ++ join [slash] (map q els)) /\
+  application_url host sn = Val (host ++ Percent.quote c07_script_safe (Utf8.encode d)) /\
+  resource_url UrlTupleCompare root r els vroot sn (Some host)
+    = Val ((host ++ Percent.quote c07_script_safe (Utf8.encode d)) ++ spec_virtual_path root r names vt
+           ++ join [slash] (map q els)) /\
   request_resource_path UrlTupleCompare root r els vroot sn
     = Val (Percent.quote c07_script_safe (Utf8.encode d) ++ spec_virtual_path root r names vt
            ++ join [slash] (map q els)).
@@ -110,9 +114,10 @@ Proof. exact resource_url_shape. Qed.
 Print Assumptions C07_resource_url_shape.
 
 (* resource_url_roundtrip: without a virtual root *)
-Theorem C07_resource_url_roundtrip : forall root r names sn d app,
+Theorem C07_resource_url_roundtrip : forall root r names sn d host,
   good_resource root r = Some names -> decode_path_info sn = Ok d ->
-  resource_url UrlTupleCompare root r [] None sn (Some app) = Val (app ++ slashed names) /\
+  resource_url UrlTupleCompare root r [] None sn (Some host)
+    = Val ((host ++ Percent.quote c07_script_safe (Utf8.encode d)) ++ slashed names) /\
   request_back UrlTupleCompare root r None = Val (r, [], Some r).
 Proof. exact resource_url_roundtrip. Qed.
 Print Assumptions C07_resource_url_roundtrip.
@@ -194,3 +199,63 @@ Theorem C07_spec_obs_sound : forall c i sv,
   exists mv, nth_error (model_obs UrlTupleCompare c) i = Some mv /\ meets i mv sv.
 Proof. exact spec_obs_sound. Qed.
 Print Assumptions C07_spec_obs_sound.
+
+(* ---- names outside the property: what the round trip does with them *)
+(* for ANY names that are text: the tuple path is decoded back to "/" n1 "/" ... "/" nk, normalised, walked *)
+Theorem C07_find_abs_general : forall root start names,
+  Forall (fun s => forallb valid_scalar s = true) names ->
+  find7 root start (PTuple ([] :: names)) = Val (walk_result ([], root) (segments_of names)).
+Proof. exact find_abs_general. Qed.
+Print Assumptions C07_find_abs_general.
+
+(* one odd name among admissible ones: '' and '.' are skipped (lookup continues from the parent), '..' also
+   drops the name before it, 'x/y' is looked up as two names, '@@v' is a KeyError and '@@' returns the parent *)
+Theorem C07_odd_name_outcomes : forall root start pre post,
+  forallb admissible pre = true -> forallb admissible post = true ->
+  (forall n, n = [] \/ n = [dot] ->
+     find7 root start (PTuple ([] :: pre ++ n :: post)) = Val (lookup_result ([], root) (pre ++ post))) /\
+  find7 root start (PTuple ([] :: pre ++ [dot; dot] :: post)) = Val (lookup_result ([], root) (removelast pre ++ post)) /\
+  (forall x y, forallb admissible [x; y] = true ->
+     find7 root start (PTuple ([] :: pre ++ (x ++ slash :: y) :: post)) = Val (lookup_result ([], root) (pre ++ x :: y :: post))) /\
+  (forall n p, normal_seg n -> forallb valid_scalar n = true -> spec_is_selector n = true ->
+     descend ([], root) pre = Some p ->
+     find7 root start (PTuple ([] :: pre ++ n :: post))
+       = Val (match skipn 2 n with [] => FoundAt (fst p) | _ => KeyErr end)).
+Proof. exact odd_name_outcomes. Qed.
+Print Assumptions C07_odd_name_outcomes.
+
+(* whatever else the names are: a resource with an inadmissible name in its lineage is never found back *)
+Theorem C07_inadmissible_never_found_back : forall root r a names,
+  names_at root r = Some names -> Forall (fun s => forallb valid_scalar s = true) names ->
+  existsb (fun s => negb (normal_segb s && negb (spec_is_selector s))) names = true ->
+  exists f, xbind (resource_path_tuple root r []) (fun t => find7 root a (PTuple t)) = Val f /\ f <> FoundAt r.
+Proof. exact inadmissible_never_found_back. Qed.
+Print Assumptions C07_inadmissible_never_found_back.
+
+(* a name that is not text (lone surrogate) cannot be written into a path at all *)
+Theorem C07_surrogate_name_unencodable : forall root r names els,
+  names_at root r = Some names -> existsb (fun s => negb (forallb valid_scalar s)) names = true ->
+  resource_path root r els = Err (EExn UnicodeEncodeError) /\
+  forall a, xbind (resource_path_tuple root r []) (fun t => find7 root a (PTuple t)) = Err (EExn UnicodeEncodeError).
+Proof. exact surrogate_name_unencodable. Qed.
+Print Assumptions C07_surrogate_name_unencodable.
+
+(* ---- the history clause: every case of a history run in one process, over the lru_cache of split_path_info
+   and _join_path_tuple and the _segment_cache dictionary in ANY state earlier calls can have produced
+   (caches_ok: every entry is a true (key, value) pair), answers exactly like the cache-free model *)
+Theorem C07_history_free : forall m cs C, caches_ok C -> run_cases_st m C cs = map (model_obs m) cs.
+Proof. exact history_free7. Qed.
+Print Assumptions C07_history_free.
+
+Theorem C07_memoised_case : forall m c C, caches_ok C ->
+  fst (model_obs_st m c C) = model_obs m c /\ caches_ok (snd (model_obs_st m c C)).
+Proof. exact model_obs_st_ok. Qed.
+Print Assumptions C07_memoised_case.
+
+(* the quoted SCRIPT_NAME inside the application URL / resource_path is the value of C17's model of
+   Request._quoted_script_name (about which C17 proves well-formedness and decoding) *)
+Theorem C07_script_name_is_c17 : forall e sn d,
+  decode_path_info sn = Ok d -> Verif.Model.C17.e_script e = d -> forallb valid_scalar d = true ->
+  exists t, quoted_script_name sn = Val t /\ Verif.Model.C17.quoted_script_name e = Verif.Model.C17.Ok t.
+Proof. exact quoted_script_name_is_c17. Qed.
+Print Assumptions C07_script_name_is_c17.
